@@ -320,6 +320,41 @@ class Field(object):
 
     def learn_zero(self, f):
         self.zero.append(f)
+        self.orient(f)
+        self.reorient()
+
+    def reorient(self):
+        """propagate: new facts may turn a known-zero polynomial into a usable substitution, or leave a single
+        undecided factor of a known-zero product (which is then zero: a field has no zero divisors)"""
+        if getattr(self, "_reorienting", False):
+            return
+        self._reorienting = True
+        try:
+            for _ in range(3):
+                changed = False
+                for f in list(self.zero):
+                    g = sp.numer(self.norm(f))
+                    if g == 0 or not g.free_symbols:
+                        continue
+                    fs = self.factors(g)
+                    if fs is not None and len(fs) == 0:
+                        # a known-zero polynomial whose factors are all known non-zero: this path is infeasible
+                        from .interp import PathEnd
+                        raise PathEnd()
+                    if fs and len(fs) == 1 and not any(self.same(fs[0], z) for z in self.zero):
+                        self.zero.append(fs[0])
+                        self.orient(fs[0])
+                        changed = True
+                    else:
+                        n0 = len(self.subst)
+                        self.orient(sp.expand(g))
+                        changed = changed or len(self.subst) != n0
+                if not changed:
+                    break
+        finally:
+            self._reorienting = False
+
+    def orient(self, f):
         # orient as a substitution when linear in an atom with a unit coefficient
         for s in sorted(f.free_symbols, key=lambda s: s.name, reverse=True):
             poly = sp.Poly(f, s)
@@ -336,6 +371,7 @@ class Field(object):
 
     def learn_nonzero(self, f):
         self.nonzero.append(f)
+        self.reorient()
 
     def assume_zero(self, e):
         st = self.status(e)
